@@ -166,80 +166,7 @@ fn o03a_zigzag_i64_roundtrip() {
     kani::assert(zigzag_decode_i64(zigzag_encode_i64(x)) == x, "O-03a-i64: signed zigzag round trip");
 }
 
-// ------------------------------------------------------------------------------------------------
-// Descriptor table (5 parallel varint streams, in-group-id predictor) — BOUNDED stand-in.
-
-#[allow(dead_code)]
-fn stub_env_var_absent<K: AsRef<std::ffi::OsStr>>(_k: K) -> Result<String, std::env::VarError> {
-    Err(std::env::VarError::NotPresent)
-}
-
-/// HashMap::new() seeds its hasher from the OS (open("/dev/urandom") is not modelled by CBMC). The descriptor
-/// codec never touches the sample-name map, so a fixed hasher state is substituted for the harness only.
-#[allow(dead_code)]
-fn stub_random_state_new() -> std::hash::RandomState {
-    unsafe { std::mem::transmute::<[u64; 2], std::hash::RandomState>([0x736f6d6570736575, 0x646f72616e646f6d]) }
-}
-
-/// set_in_group_id grows the table to `(pos as f64 * 1.2) as usize + 1` entries: symbolic f64 multiplication is what
-/// made this harness run > 50 min. The stub keeps the observable behaviour the codec relies on (entry `pos` set,
-/// new entries -1, old entries kept) and drops only the growth policy; O-03s checks the real function against
-/// exactly this behaviour for concrete positions.
-#[allow(dead_code)]
-fn stub_set_in_group_id(this: &mut CollectionV3, pos: usize, val: i32) {
-    if pos >= this.in_group_ids.len() {
-        this.in_group_ids.resize(pos + 1, -1);
-    }
-    this.in_group_ids[pos] = val;
-}
-
-fn any_desc(max_group: u32) -> SegmentDesc {
-    let g: u32 = kani::any();
-    kani::assume(g < max_group);
-    SegmentDesc { group_id: g, in_group_id: kani::any(), is_rev_comp: kani::any(), raw_length: kani::any() }
-}
-
-//@ obligation: O-03c
-//@ props: C03 C02
-//@ kind: bounded
-//@ bound: 1 sample x 1 contig x 3 segments; group ids < 3 (keeps the predictor table small); in-group ids, lengths, orientation fully symbolic (all u32 / bool values)
-//@ tier: thorough
-//@ timeout: 1500
-//@ functions: collection::CollectionV3::serialize_contig_details collection::CollectionV3::deserialize_contig_details
-//@ stubs: std::env::var anyhow::__private::format_err std::hash::RandomState::new set_in_group_id
-//@ claim: a descriptor table written by serialize_contig_details is read back unchanged by deserialize_contig_details, for ids that repeat, go back, are 0, or jump (3 segments is the minimum that exercises prev==-1, prev set, and the zigzag branch in one group)
-#[kani::proof]
-#[kani::unwind(8)]
-#[kani::stub(std::env::var, stub_env_var_absent)]
-#[kani::stub(anyhow::__private::format_err, stub_format_err_must_not_happen)]
-#[kani::stub(std::hash::RandomState::new, stub_random_state_new)]
-#[kani::stub(CollectionV3::set_in_group_id, stub_set_in_group_id)]
-fn o03c_descriptor_table_roundtrip_bounded() {
-    let seg_size: u32 = kani::any();
-    let k: u32 = kani::any();
-    kani::assume(seg_size <= 100_000 && k <= 32);
-    let d0 = any_desc(3);
-    let d1 = any_desc(3);
-    let d2 = any_desc(3);
-    // in-group ids stay below 2^31 (they are cast to i32 by the predictor) and below u32::MAX-1 (the +1 in the escape code)
-    kani::assume(d0.in_group_id < (1u32 << 31) && d1.in_group_id < (1u32 << 31) && d2.in_group_id < (1u32 << 31));
-    let mut w = CollectionV3::new();
-    w.set_config(seg_size, k, None);
-    w.sample_desc.push(SampleDesc { name: String::new(), contigs: vec![ContigDesc { name: String::new(), segments: vec![d0, d1, d2] }] });
-    let streams = w.serialize_contig_details(0, 1);
-    let mut r = CollectionV3::new();
-    r.set_config(seg_size, k, None);
-    r.sample_desc.push(SampleDesc { name: String::new(), contigs: vec![ContigDesc { name: String::new(), segments: Vec::new() }] });
-    match r.deserialize_contig_details(&streams, 0) {
-        Ok(()) => {
-            let got = &r.sample_desc[0].contigs[0].segments;
-            kani::cover!(d0.group_id == d1.group_id && d0.in_group_id == 0 && d1.in_group_id >= 2, "id 0 then a jump in the same group reachable");
-            kani::cover!(d0.group_id == d1.group_id && d1.in_group_id < d0.in_group_id, "id going back reachable");
-            kani::assert(got.len() == 3, "O-03c: same number of descriptors");
-            kani::assert(got[0] == d0, "O-03c: descriptor 0 read back unchanged");
-            kani::assert(got[1] == d1, "O-03c: descriptor 1 read back unchanged");
-            kani::assert(got[2] == d2, "O-03c: descriptor 2 read back unchanged");
-        }
-        Err(_) => kani::assert(false, "O-03c: a table ragc wrote must be readable"),
-    }
-}
+// NOTE: bounded CBMC harnesses over CollectionV3 itself (descriptor-table round trip, prepare_for_decompression)
+// were tried and dropped: HashMap<String, _> (SipHash over symbolic strings) and the f64 growth policy of
+// set_in_group_id do not terminate within 50 min even for one contig with three segments. prepare_for_decompression
+// is instead under a Verus contract (contracts/collection_open.spec); the descriptor table is listed as not covered.
